@@ -20,6 +20,7 @@ EXPLANATION = (
     "add_success_fields(result=<the result>) is called iff include_result; metadata via boltons wraps; default "
     "action type from __module__ and __qualname__; the decorator-factory arm passes its options through."
     "  C07.contain restricted to log_call, Action.finish and Action.__exit__ is part of this property (the wrapper's own code may not raise into the call)."
+    '  Binding through inspect.signature(f).bind without follow_wrapped=False is a violation (signature follows __wrapped__); other binding mechanisms are not modelled (exit 2).'
 )
 RULE = "obligation = rule instance bound to a call site / return / decorator of log_call; non-trivial = CFG paths examined"
 ASSUMPTIONS = [
